@@ -188,7 +188,7 @@ def main_check(prop: str, tier: str, argv=None):
     # queries into 'unsupported'/'budget' must not pass silently (exit 2, never a verdict)
     gfloor = getattr(mod, "MIN_GROUP_CONCLUSIVE_FRACTION", 0.5)
     optional = set(getattr(mod, "OPTIONAL_GROUPS", ()))
-    by_group = defaultdict(lambda: [0, 0])
+    by_group = defaultdict(lambda: [0, 0, 0])
     for q, r in zip(queries, results):
         if q.canary:
             continue
@@ -196,9 +196,14 @@ def main_check(prop: str, tier: str, argv=None):
         by_group[g][0] += 1
         if not r.error and not r.inconclusive:
             by_group[g][1] += 1
-    for g, (n, ok) in sorted(by_group.items()):
+        by_group[g][2] += r.obligations
+    may_be_empty = set(getattr(mod, "OBLIGATION_FREE_GROUPS", ()))
+    for g, (n, ok, nobl) in sorted(by_group.items()):
         if g not in optional and ok < gfloor * n:
             harness_errors.append(f"query group '{g}': only {ok}/{n} conclusive (floor {gfloor}) - inconclusive, not a pass")
+        if g not in optional and g not in may_be_empty and nobl == 0:
+            # a family of queries none of whose paths reaches an assertion proves nothing (e.g. every input rejected)
+            harness_errors.append(f"query group '{g}': vacuous - no obligation reached on any of its {n} queries")
     samples = []
     for q, r in zip(queries, results):
         if q.canary:
@@ -258,7 +263,7 @@ def main_check(prop: str, tier: str, argv=None):
             "traces_validated_against_impl": len(items),
             "checker_cmd": f"./vcheck {prop} --tier {tier}",
             "trusted_base": ["z3 " + _z3v(), "CPython " + sys.version.split()[0], "symx (this repo, differential self-check: ./vcheck selfcheck)"],
-            "query_groups": {g: {"planned": n, "conclusive": ok} for g, (n, ok) in sorted(by_group.items())},
+            "query_groups": {g: {"planned": n, "conclusive": ok, "obligations": nobl} for g, (n, ok, nobl) in sorted(by_group.items())},
             "harness_errors": harness_errors,
         },
     }
